@@ -430,11 +430,11 @@ theorem ioprioSetC_defined (c : ICfg) (hs : c.CSafe) (cls data : Int) : ioprioSe
     have hshl := (C17_ioprio_no_overflow cls 0 (by omega) (by omega) (by decide) (by decide)).1
     rw [hsh, hshl]
     by_cases hb : (!inRange c.cGuard cls || !inRange c.cDataGuard data) = true
-    · simp [hb]
+    · cases c.cGuardOSError <;> simp [hb]
     · simp only [hb, if_false]
       by_cases hd : data < 0 <;> simp [hd]
   · have : inRange c.cGuard cls = false := by simpa using hr
-    simp [this]
+    cases c.cGuardOSError <;> simp [this]
 
 theorem parseCInt_error (bits : Nat) (a : Arg) (e : PyOut) (h : parseCInt bits a = .error e) : e ≠ .ub := by
   cases a with
